@@ -138,8 +138,11 @@ def index_tracks(hist, tracks, rec):
     lookup = {}
     for i, (t, fr) in enumerate(zip(hist["times"], hist["frames"])):
         for j, r in enumerate(fr):
-            d = mk_member(hist, r)
-            lookup.setdefault((_tkey(t), common.droplet_bytes(d)), []).append((i, j))
+            if hist.get("member_keys") is not None:  # input-agnostic use: bytes of the real members, taken before the call
+                key = bytes.fromhex(hist["member_keys"][i][j])
+            else:
+                key = common.droplet_bytes(mk_member(hist, r))
+            lookup.setdefault((_tkey(t), key), []).append((i, j))
     out = []
     unknown = []
     used = {}
